@@ -187,7 +187,9 @@ class StageHarness(Harness):
         return main2
 
     def _maybe_fail(self, key):
-        if self.fail_item is not None and tuple(key) == tuple(self.fail_item):
+        # fail_item == "all": the processing of EVERY item raises (a callback that cannot work at all: an output
+        # directory that is not writable, a sampler with a bug)
+        if self.fail_item is not None and (self.fail_item == "all" or tuple(key) == tuple(self.fail_item)):
             raise FAULTS[self.fail_exc]("injected failure at item %r" % (key,))
 
     def at_terminal(self, sched, mon):
@@ -665,7 +667,8 @@ class MultiTan(_TileStage):
         imgs = tan_images(self.nimg)
         fail = self.fail_item
         if fail is not None:
-            imgs[fail[0]].__class__ = failing_image_class(self.fail_exc)  # first thing the worker asks of an image raises
+            for k in (range(len(imgs)) if fail == "all" else [fail[0]]):
+                imgs[k].__class__ = failing_image_class(self.fail_exc)  # first thing the worker asks of an image raises
         pio = PyramidIO(root, default_format=self.fmt)
 
         def collection():
@@ -753,7 +756,8 @@ class MultiWcs(_TileStage):
         for i in getattr(self, "nan_images", ()):
             imgs[i].asarray()[...] = np.nan  # a segment without any data (dead chip): nothing to tile, nothing to fail
         if self.fail_item is not None:
-            imgs[self.fail_item[0]].asarray()[...] = {"runtime": -1.0, "oserror": -2.0, "valueerror": -3.0}[self.fail_exc]
+            for k in (range(len(imgs)) if self.fail_item == "all" else [self.fail_item[0]]):
+                imgs[k].asarray()[...] = {"runtime": -1.0, "oserror": -2.0, "valueerror": -3.0}[self.fail_exc]
         pio = PyramidIO(root, default_format=self.fmt)
         if getattr(self, "_tmpl", None) is None:
             proc = MultiWcsProcessor(ListCollection(imgs))
